@@ -225,6 +225,21 @@ class EscapeAnalysis:
 
     def exc_name(self, node, rel) -> str:
         """Class name of an exception expression (``X(...)``, ``X``, ``mod.X``)."""
+        if isinstance(node, ast.Call) and isinstance(node.func, (ast.Name, ast.Attribute)):
+            # ``raise make_error(...)``: a module-level function or a method of this module every return of which is an
+            # exception instance of one class
+            nm_ = node.func.id if isinstance(node.func, ast.Name) else node.func.attr
+            if nm_[:1].islower() or nm_.startswith("_"):
+                try:
+                    cands = [f for f in ast.walk(self.repo.tree(rel)) if isinstance(f, ast.FunctionDef) and f.name == nm_]
+                except Exception:  # noqa: BLE001
+                    cands = []
+                if len(cands) == 1:
+                    rets = [r for r in ast.walk(cands[0]) if isinstance(r, ast.Return) and r.value is not None]
+                    names = {self.exc_name(r.value, rel) for r in rets if isinstance(r.value, ast.Call) and not (
+                        isinstance(r.value.func, ast.Name) and r.value.func.id == nm_)}
+                    if rets and len(names) == 1 and all(isinstance(r.value, ast.Call) for r in rets):
+                        return next(iter(names))
         if isinstance(node, ast.Call):
             node = node.func
         d = dotted(node) or U(node)
@@ -307,6 +322,14 @@ class EscapeAnalysis:
             if isinstance(recv, ast.Name) and recv.id in CLASS_HOME:
                 m = self._find_method(CLASS_HOME[recv.id], recv.id, f.attr)
                 return m or None
+            if isinstance(recv, ast.Name):
+                # a local bound (possibly alongside an attribute: ``self._x = x = Cls(...)``) to a new object of a known class
+                for a_ in ast.walk(func):
+                    if isinstance(a_, ast.Assign) and isinstance(a_.value, ast.Call) and isinstance(a_.value.func, ast.Name) and a_.value.func.id in CLASS_HOME \
+                            and any(isinstance(t_, ast.Name) and t_.id == recv.id for t_ in a_.targets):
+                        m = self._find_method(CLASS_HOME[a_.value.func.id], a_.value.func.id, f.attr)
+                        if m:
+                            return m
             key = last_attr(recv)
             if key in RECEIVERS and isinstance(recv, (ast.Name, ast.Attribute)):
                 r, c = RECEIVERS[key]
@@ -401,6 +424,27 @@ class EscapeAnalysis:
                     return out
                 bt = U(base)
                 if bt.isupper() or bt.split(".")[-1].isupper():
+                    # the same key has already found an entry in another literal table whose keys are all keys of this one
+                    def table_keys(b_):
+                        nm_ = U(b_).split(".")[-1]
+                        cls_ = self.class_of(func)
+                        for q_ in ([f"{cls_}.{nm_}"] if cls_ else []) + [nm_]:
+                            try:
+                                d_ = self.repo.module_assign(rel, q_)
+                            except Exception:  # noqa: BLE001
+                                continue
+                            if isinstance(d_, ast.Dict) and all(k_ is not None and isinstance(k_, ast.Constant) for k_ in d_.keys):
+                                return {k_.value for k_ in d_.keys}
+                        return None
+                    mine = table_keys(base)
+                    if mine is not None:
+                        for o_ in ast.walk(func):
+                            if isinstance(o_, ast.Subscript) and o_ is not n and isinstance(o_.ctx, ast.Load) and U(o_.slice) == U(n.slice) and U(o_.value) != bt \
+                                    and getattr(o_, "lineno", 0) < getattr(n, "lineno", 0) and (U(o_.value).isupper() or U(o_.value).split(".")[-1].isupper()):
+                                theirs = table_keys(o_.value)
+                                stores_ = [x for x in ast.walk(func) if isinstance(x, ast.Name) and x.id == U(n.slice) and isinstance(x.ctx, ast.Store)]
+                                if theirs is not None and theirs <= mine and len(stores_) <= 1:
+                                    return out
                     out.add(("KeyError", f"{U(n)[:60]}"))
                 else:
                     out.add(("LookupError?", f"{U(n)[:60]}"))
@@ -511,13 +555,33 @@ class EscapeAnalysis:
         if isinstance(h.type, ast.Tuple):
             return [self.exc_name(e, rel) for e in h.type.elts]
         if isinstance(h.type, ast.Name) and h.type.id.isupper():
-            # a module-level tuple of exception classes
-            try:
-                v = self.repo.module_assign(rel, h.type.id)
+            # a module-level tuple of exception classes, possibly put together from smaller ones (``A + B``, ``(*A, X)``)
+            def members(v, depth=0):
+                if depth > 4:
+                    return None
                 if isinstance(v, ast.Tuple):
-                    return [self.exc_name(e, rel) for e in v.elts]
-            except Exception:  # noqa: BLE001
-                pass
+                    out_ = []
+                    for e in v.elts:
+                        if isinstance(e, ast.Starred):
+                            sub_ = members(e.value, depth + 1)
+                            if sub_ is None:
+                                return None
+                            out_ += sub_
+                        else:
+                            out_.append(e)
+                    return out_
+                if isinstance(v, ast.BinOp) and isinstance(v.op, ast.Add):
+                    a_, b_ = members(v.left, depth + 1), members(v.right, depth + 1)
+                    return None if a_ is None or b_ is None else a_ + b_
+                if isinstance(v, ast.Name) and v.id.isupper():
+                    try:
+                        return members(self.repo.module_assign(rel, v.id), depth + 1)
+                    except Exception:  # noqa: BLE001
+                        return None
+                return None
+            els = members(h.type)
+            if els is not None:
+                return [self.exc_name(e, rel) for e in els]
         return [self.exc_name(h.type, rel)]
 
     def _body_raises(self, stmts, func):
